@@ -41,13 +41,23 @@ func run(h *common.History) {
 	t0 := time.Now()
 	h.Obs = nil
 	nOk, nErr, nExpired := 0, 0, 0
-	for _, op := range h.Ops {
+	for i, op := range h.Ops {
 		at := t0.Add(time.Duration(common.AtoI(op[1])))
 		if d := time.Until(at); d > 0 {
 			time.Sleep(d)
 		}
 		src := &net.UDPAddr{IP: ipOf(uint32(common.AtoU64(op[2]))), Port: common.AtoI(op[3])}
 		dst := &net.UDPAddr{IP: ipOf(uint32(common.AtoU64(op[4]))), Port: common.AtoI(op[5])}
+		// the same address in its 4-byte and its 16-byte form is the same address (a function of the position in the history,
+		// so that a replay uses the same forms)
+		switch (i + src.Port + dst.Port) % 4 {
+		case 1:
+			dst.IP = dst.IP.To16()
+		case 2:
+			src.IP = src.IP.To16()
+		case 3:
+			src.IP, dst.IP = src.IP.To16(), dst.IP.To16()
+		}
 		payload := []byte{byte(len(h.Obs)), 7, 9}
 		kind, addr := n.Translate(common.AtoI(op[0]), src, dst, payload)
 		if kind == 0 {
@@ -84,14 +94,21 @@ func gen(r *rand.Rand, long bool) *common.History {
 		natIPs[i] = wanBase + 0x0A + uint32(i)
 		h.Conf = append(h.Conf, common.I(natIPs[i]))
 	}
+	chained := oneToOne && k >= 2 && r.IntN(3) == 0
 	for i := 0; i < k; i++ {
 		locIPs[i] = lanBase + 0x65 + uint32(i)
+		if chained && i == 1 {
+			locIPs[i] = natIPs[0] // an IP that is external in one pair and local in the next
+		}
 		if oneToOne {
 			h.Conf = append(h.Conf, common.I(locIPs[i]))
 		}
 	}
 	if oneToOne {
 		h.Tags = append(h.Tags, "one_to_one")
+		if chained {
+			h.Tags = append(h.Tags, "one_to_one_chained_pairs")
+		}
 	} else {
 		h.Tags = append(h.Tags, "mapping_"+common.I(mb)+"_filtering_"+common.I(fb))
 	}
@@ -150,6 +167,10 @@ func gen(r *rand.Rand, long bool) *common.History {
 		if r.IntN(100) < 55 {
 			src := internals[r.IntN(len(internals))]
 			dst := remotes[r.IntN(len(remotes))]
+			if oneToOne && r.IntN(4) == 0 {
+				// outbound from an external IP of a pair, or from the last configured local IP
+				src.ip = append(natIPs, locIPs[k-1])[r.IntN(k+1)]
+			}
 			h.Ops = append(h.Ops, []string{"0", common.I(now), common.I(src.ip), common.I(src.port), common.I(dst.ip), common.I(dst.port)})
 			// remember plausible external addresses (the harness learns the real ones when it runs; here we guess the next ports)
 			external = append(external, ep{natIPs[0], 0xC000 + len(external)})
@@ -173,8 +194,11 @@ func gen(r *rand.Rand, long bool) *common.History {
 			}
 			if oneToOne {
 				dst = ep{natIPs[r.IntN(k)], 1000 + r.IntN(3)}
-				if r.IntN(5) == 0 {
+				switch r.IntN(6) {
+				case 0:
 					dst.ip = wanBase + 0x63
+				case 1:
+					dst.ip = locIPs[r.IntN(k)] // a configured local IP is not an external one
 				}
 			}
 			h.Ops = append(h.Ops, []string{"1", common.I(now), common.I(src.ip), common.I(src.port), common.I(dst.ip), common.I(dst.port)})
